@@ -296,6 +296,9 @@ pub enum Strategy {
     /// follow the choice indices, then always take choice 0
     Script(Vec<usize>),
     Random(u64),
+    /// submit the schedule with this index first, then always prefer delivering a pending coordination
+    /// RPC over submitting another schedule (followers receive `validate` before their own schedule)
+    RpcFirst(usize),
 }
 
 #[derive(Clone)]
@@ -495,16 +498,28 @@ pub fn explore(sc: &Scenario) -> RunRecord {
                 }
                 continue;
             }
+            if let Strategy::RpcFirst(_) = &sc.strategy {
+                if step > 0 && coord.is_empty() && msgs.is_empty() && extra_threads {
+                    // wait for the compile thread instead of submitting the next schedule
+                    std::thread::sleep(std::time::Duration::from_micros(300));
+                    stall += 1;
+                    if stall > 200_000 {
+                        end = "watchdog: compile thread did not finish".into();
+                        break;
+                    }
+                    continue;
+                }
+            }
             stall = 0;
             step += 1;
             // pick
             let pick_msg_first = match &sc.strategy {
-                Strategy::Script(_) => !msgs.is_empty(),
+                Strategy::Script(_) | Strategy::RpcFirst(_) => !msgs.is_empty(),
                 Strategy::Random(_) => !msgs.is_empty() && (n_choices == 0 || rng.random_bool(0.6)),
             };
             if pick_msg_first {
                 let id = match &sc.strategy {
-                    Strategy::Script(_) => msgs[0],
+                    Strategy::Script(_) | Strategy::RpcFirst(_) => msgs[0],
                     // at most one message per (from, to) is outstanding, so any pending message may go first
                     Strategy::Random(_) => msgs[rng.random_range(0..msgs.len())],
                 };
@@ -521,6 +536,9 @@ pub fn explore(sc: &Scenario) -> RunRecord {
                     c % n_choices
                 }
                 Strategy::Random(_) => rng.random_range(0..n_choices),
+                Strategy::RpcFirst(first) => {
+                    if choices.is_empty() { first % n_choices } else if !coord.is_empty() { to_submit.len() } else { 0 }
+                }
             };
             choices.push(choice);
             if choice < to_submit.len() {
